@@ -144,6 +144,36 @@ theorem step_refines_file (w : World) (op : Op) (v : View) (hv : w.views[op.targ
     exact ⟨by simp [specAccess], (set_self _ _ _ hv).symm, rfl, fun _ _ => rfl, rfl, rfl, rfl⟩
   | _ => simp [Op.isIO] at hio
 
+/-- **Bounded file, whole histories.** Any sequence of reads, writes, seeks (from start / current,
+or from the end with offset 0), tells and flushes on one live view returns, call by call, exactly
+what the same sequence returns on a fixed-length file initialised with the bytes of the view's
+range (values, truncation warnings; positions through `tell`). -/
+theorem run_refines_file (ops : List Op) : ∀ (w : World) (i : Nat) (v : View),
+    w.views[i]? = some v → dead w v = false → v.start ≤ v.stop →
+    (∀ op ∈ ops, op.isIO = true ∧ op.target = i ∧ ∀ j n, op = .seek j n 2 → n = 0) →
+    (run w ops).1.map (fun o => (o.ret, o.warn)) = specRun v (absFile w.mem v).data ops := by
+  induction ops with
+  | nil => intro w i v _ _ _ _; rfl
+  | cons op ops ih =>
+    intro w i v hv hlive hwf hall
+    obtain ⟨hio, ht, hk⟩ := hall op (List.mem_cons_self ..)
+    subst ht
+    obtain ⟨s, hs, hout, hviews, hdata, _, hfreed, _, _⟩ := step_refines_file w op v hv hlive hwf hio hk
+    obtain ⟨hps, hpe, hpc⟩ := specIO_post v _ op s hs
+    have hlt : op.target < w.views.length := by
+      rcases Nat.lt_or_ge op.target w.views.length with h | h
+      · exact h
+      · rw [List.getElem?_eq_none h] at hv; cases hv
+    have hv' : (step w op).1.views[op.target]? = some s.post := by
+      rw [hviews, List.getElem?_set]; simp [hlt]
+    have hlive' : dead (step w op).1 s.post = false := by
+      unfold dead at *; rw [hfreed, hpc]; exact hlive
+    have := ih (step w op).1 op.target s.post hv' hlive' (by omega)
+      (fun o ho => hall o (List.mem_cons_of_mem _ ho))
+    have hf : absFile w.mem v = ⟨(absFile w.mem v).data, v.offset⟩ := rfl
+    rw [hf] at hs
+    simp only [run, List.map_cons, specRun, hs, this, hdata, hout]
+
 /-- **Reads return the bytes last written** (through whichever view they were written):
 memory holds the written bytes at the written addresses and is unchanged elsewhere. -/
 theorem read_back (m : Mem) (a : Int) (d : List Nat) :
@@ -261,6 +291,12 @@ example : let w := mkRoot 1 2 1000 1010 (fun _ => 7)
 example : let w := (step (mkRoot 1 2 1000 1010 (fun _ => 7)) (.seek 0 8 0)).1
     (step w (.write 0 [1, 2, 3, 4])).2 = ⟨.int 2, true, some (.write 1008 [1, 2] 1 2 0)⟩ := by
   decide
+
+/-- the file specification is not degenerate: seek, truncated read, write, relative seek, truncated write -/
+example : specRun (mkView 1000 1004) [1, 2, 3, 4]
+      [.seek 0 2 0, .read 0 5, .write 0 [9], .seek 0 (-1) 1, .write 0 [8, 8], .seek 0 0 0, .read 0 (-1)]
+    = [(.none, false), (.bytes [3, 4], true), (.int 0, true), (.none, false), (.int 1, true),
+       (.none, false), (.bytes [1, 2, 3, 8], false)] := by decide
 
 /-- a nested slice with negative bounds: `f[2:9][-4:-1]` of a view at 1000 is `[1005, 1008)` -/
 example : specSlice (specSlice (mkView 1000 1010) (some 2) (some 9)) (some (-4)) (some (-1))
